@@ -512,7 +512,7 @@ class Interp:
             v = self.ev(e["recv"], env, depth)
             if isinstance(v, (list, tuple, str)) and not (isinstance(v, tuple) and v and v[0] in ("__some", "__closure")):
                 return len(v) if name == "len" else len(v) == 0
-            raise Unsupported("%s on %r" % (name, v))
+            # otherwise: a method of a crate type (e.g. Condition::len) - handled below
         if e.get("k") == "mcall" and name == "is_some":
             return self.ev(e["recv"], env, depth) is not None
         if e.get("k") == "mcall" and name == "is_none":
